@@ -17,7 +17,7 @@ RULE = (
     "serialize_and_sign calls == artifacts. distinct = (n packages, n conda, pre-existing class, extra fields, key); non-trivial = "
     ">= 1 artifact."
 )
-LIMITS = ["artifact names are distinct across both sections (as the property states)", "documents up to 40+40 artifacts (larger in C07's 1 MB documents)"]
+LIMITS = ["artifact names are distinct across both sections (as the property states)", "documents up to ~1000 artifacts per section"]
 ASSUMPTIONS = ["reference signer and serializer"]
 
 
@@ -27,7 +27,7 @@ def plan(tier, seed):
     return [{"kind": "docs", "count": n // shards} for _ in range(shards)]
 
 
-def gen_doc(rng):
+def gen_doc(rng, big=False):
     def names(n, suffix):
         out = []
         while len(out) < n:
@@ -46,6 +46,15 @@ def gen_doc(rng):
     used = set()
     npk = rng.choice([0, 1, 2, 3, 5, 8, 20, 40]) if rng.random() < 0.8 else rng.randint(0, 40)
     nco = rng.choice([0, 0, 1, 2, 4, 10, 40]) if rng.random() < 0.8 else rng.randint(0, 40)
+    if big:
+        # larger repositories (sizes around typical chunking boundaries and odd remainders)
+        sizes = [63, 64, 65, 67, 96, 97, 101, 127, 128, 129, 130, 203, 255, 257, 500, 1001]
+        if rng.random() < 0.5:
+            npk = rng.choice(sizes)
+        else:
+            nco = rng.choice(sizes)
+        if rng.random() < 0.3:
+            npk, nco = rng.choice(sizes), rng.choice(sizes)
 
     def md():
         r = rng.random()
@@ -208,7 +217,7 @@ def check_case(case, rec, lib, scratch):
 def run_shard(spec, rec, lib):
     rng = random.Random(spec["seed"])
     for i in range(spec["count"]):
-        case = gen_doc(rng)
+        case = gen_doc(rng, big=(i % 5 == 4))
         check_case(case, rec, lib, spec["scratch"])
         if i < 1:
             d = case["doc"]
